@@ -254,8 +254,8 @@ impl AdaptiveCompressor {
             return Ok(());
         }
 
-        // Don't adapt too frequently
-        if count % self.config.evaluation_interval != 0 {
+        // Don't adapt too frequently (an interval of 0 means "never re-evaluate", not a division by zero)
+        if self.config.evaluation_interval == 0 || count % self.config.evaluation_interval != 0 {
             return Ok(());
         }
 
